@@ -391,7 +391,7 @@ func runC17(c *run.Ctx) {
 		}
 	}
 	// tuples (argument lists): repeated variables across positions
-	m := c.Pick(150000, 3000000)
+	m := c.Pick(150000, 8000000)
 	for i := 0; i < m; i++ {
 		if !c.Mine(i) {
 			continue
@@ -486,7 +486,7 @@ func runC17(c *run.Ctx) {
 		}
 		return t
 	}
-	for i := 0; i < c.Pick(40000, 800000); i++ {
+	for i := 0; i < c.Pick(40000, 3000000); i++ {
 		if !c.Mine(i) {
 			continue
 		}
